@@ -696,6 +696,11 @@ def _window(db, chk, m):
         return
     r = runs[0]
     filt = [e for e in r.events if e["kind"] == "filter" and e["how"] == "query" and _in_cpa(m, e["func"])]
+    if len(filt) != 2:          # the same two selections written as boolean masks: the filters of the method whose predicate compares a time column with the window bounds
+        cand = [e for e in r.events if e["kind"] == "filter" and _in_cpa(m, e["func"]) and e.get("pred") is not None and T.find(e["pred"], lambda s_: s_[0] in ("agg", "at"))
+                and T.find(e["pred"], lambda s_: s_[0] in ("col", "jl", "jr") and s_[-1] == "ts")]
+        if len(cand) == 2:
+            filt = cand
     if len(filt) != 2:
         chk.ob(rule, "two window queries (host events, device activities)", None, where, found=len(filt))
         return
